@@ -115,7 +115,10 @@ def templates(tier="quick"):
         md["no_expand"] = True
         md["compare_output_with_twin"] = True
         ops.append(md)
-        T.append(scenario("c14/missingdeps_depfile/" + name, "c14", [v], ops=ops, init=[b], depth=d, tags=["spelling", name, "depfile", "tools"],
+        # (history depth 2 in both tiers: the object has, on purpose, no manifest path to the generated header -- that is what
+        # the tool is to report -- so with the header's source and the object's source edited in one go the unmodified ninja
+        # builds the object first, F1; a project outside the premise of the build oracles, which the thorough tier reached)
+        T.append(scenario("c14/missingdeps_depfile/" + name, "c14", [v], ops=ops, init=[b], depth=min(d, 2), tags=["spelling", name, "depfile", "tools"],
                           twin_variants=[unspelled_twin(v)]))
 
     # S2c depfiles in the `gcc -MP` style (every header once more as a target without dependencies): the dependency
